@@ -67,13 +67,13 @@ func act(id string, args ...interface{}) error {
 		}
 		switch parts[0] {
 		case "error":
-			return errors.New(msg)
+			return mkErr(parts[1:], msg)
 		case "fatal":
 			return mg.Fatal(code, msg)
 		case "fatalf":
 			return mg.Fatalf(code, "%s", msg)
 		case "panic-error":
-			panic(errors.New(msg))
+			panic(mkErr(parts[1:], msg))
 		case "panic-fatal":
 			panic(mg.Fatal(code, msg))
 		case "panic-string":
@@ -156,6 +156,61 @@ func act(id string, args ...interface{}) error {
 	return nil
 }
 
+// mkErr makes an error VALUE of the requested shape; what decides the exit status is only whether the value
+// itself has a method ExitStatus() int.
+func mkErr(shape []string, msg string) error {
+	n := 0
+	if len(shape) > 1 {
+		n, _ = strconv.Atoi(shape[1])
+	}
+	if len(shape) == 0 {
+		return errors.New(msg)
+	}
+	switch shape[0] {
+	case "wrapplain": // %w around a plain error
+		return fmt.Errorf("context: %w", errors.New(msg))
+	case "wrapfatal": // %w around mg.Fatal(n): the wrapper has no ExitStatus() of its own
+		return fmt.Errorf("context: %w", mg.Fatal(n, msg))
+	case "unwrapnil": // a type with an optional cause: Unwrap() error returns nil
+		return &causeErr{msg: msg}
+	case "unwrapmulti": // Unwrap() []error
+		return errors.Join(errors.New(msg), mg.Fatal(n, msg))
+	case "typednil": // a nil pointer in a non-nil error interface
+		var e *causeErr
+		return e
+	case "code": // a type of its own with ExitStatus() int = n (0, negative, > 255 included)
+		return codeErr{n, msg}
+	}
+	return errors.New(msg)
+}
+
+type causeErr struct {
+	msg   string
+	cause error
+}
+
+func (e *causeErr) Error() string {
+	if e == nil {
+		return "FAIL-typed-nil"
+	}
+	return e.msg
+}
+
+func (e *causeErr) Unwrap() error {
+	if e == nil {
+		return nil
+	}
+	return e.cause
+}
+
+type codeErr struct {
+	code int
+	msg  string
+}
+
+func (e codeErr) Error() string   { return e.msg }
+func (e codeErr) ExitStatus() int { return e.code }
+
 // shFail runs the failing child through one of the entry points of package sh and hands its error on.
 func shFail(entry, script string) error {
 	return shCall(entry, "sh", "-c", script)
@@ -235,7 +290,25 @@ HAS_ERR = {"T1": True, "T2": True, "T3": True, "U1": False, "C1": True, "A1": Tr
 TARGET_WORDS = {"T1": ["t1"], "T2": ["T2"], "T3": ["t3"], "U1": ["u1"], "C1": ["c1"], "A1": ["a1", "x", "5"], "A2": ["A2", "true", "1s"]}
 TOP = set(TARGET_WORDS)
 
+def hist_project(name):
+    """a project whose magefile depends on code outside the (hashed) magefiles: a helper package, a mage:import'ed package"""
+    mf = MAGEFILE.replace('\t"github.com/magefile/mage/sh"\n)\n',
+                          '\t"github.com/magefile/mage/sh"\n)\n\nimport (\n\t"example.test/%s/helper"\n\t// mage:import\n\t_ "example.test/%s/imp"\n)\n\nvar _ = helper.Version\n' % (name, name), 1)
+    assert mf != MAGEFILE
+    return {"mf.go": mf,
+            "helper/helper.go": "package helper\n\n// Version reports the version.\nfunc Version() string { return \"v1\" }\n",
+            "imp/imp.go": "package imp\n\n// Imported is a target of the imported package.\nfunc Imported() error { return nil }\n"}
+
+
+HIST_BREAK = {          # where the code stops compiling after a first, successful run
+    "magefile": ("mf.go", "\nvar _ int = \"no longer compiles\"\n"),
+    "helper": ("helper/helper.go", "\nvar _ int = \"no longer compiles\"\n"),
+    "imp": ("imp/imp.go", "\nvar _ int = \"no longer compiles\"\n"),
+    "gomod": ("go.mod", "\nthis is not a go.mod directive\n"),
+}
+
 PROJECTS = {
+    "hist": hist_project,
     "main": {"mf.go": MAGEFILE},
     "def": {"mf.go": MAGEFILE + "\nvar Default = T1\n"},
     "defargs": {"mf.go": MAGEFILE + "\nvar Default = A1\n"},
@@ -257,10 +330,8 @@ def spec_string(behs):
             parts.append("%s=%s:%s" % (fid, b[0], ",".join(b[1])))
         elif b[0] == "sh" and len(b) > 2:
             parts.append("%s=sh:%d:%s:%s" % (fid, b[1], b[2], b[3]))
-        elif len(b) > 2:
-            parts.append("%s=%s" % (fid, ":".join(str(x) for x in b)))
         elif len(b) > 1:
-            parts.append("%s=%s:%d" % (fid, b[0], b[1]))
+            parts.append("%s=%s" % (fid, ":".join(str(x) for x in b)))
         else:
             parts.append("%s=%s" % (fid, b[0]))
     return ";".join(parts)
@@ -272,7 +343,12 @@ def abs_body(fid, behs):
     k, he = b[0], HAS_ERR[fid]
     if k == "ok":
         return ["ok"]
+    if k in ("error", "panic-error") and len(b) > 1 and b[1] == "code":
+        # an error value whose own method ExitStatus() returns b[2]: for the chain it is what mg.Fatal(b[2]) is
+        return ["fatal", b[2]] if (he and k == "error") else ["pfatal", b[2]]
     if k == "error":
+        # every other shape (errors.New, %w wrappers - also around mg.Fatal -, Unwrap() nil / []error, typed nil) is an
+        # error without an ExitStatus() of its own
         return ["err"] if he else ["perr"]
     if k in ("fatal", "fatalf"):
         return ["fatal", b[1]] if he else ["pfatal", b[1]]
@@ -377,6 +453,8 @@ def o_status(fid, behs):
     k = b[0]
     if k == "ok":
         return 0
+    if k in ("error", "panic-error") and len(b) > 1 and b[1] == "code":
+        return b[2]                                # the status the error value itself carries
     if k in ("error", "panic-error", "panic-string", "panic-int", "shnotran", "shsig", "shcopy"):
         return 1                                   # plain error, non-error panic; a failed sh command that has no exit
                                                    # code of its own (not started, killed by a signal, output copy failed)
@@ -425,6 +503,8 @@ def o_tokens(fid, behs, msg=None):
             if o_status(d, behs) != 0:
                 return o_tokens(d, behs, msg)
         return []
+    if k in ("error", "panic-error") and len(b) > 1 and b[1] == "typednil":
+        return ["FAIL-typed-nil"]
     return [msg or ("FAIL-" + fid)]
 
 
@@ -541,7 +621,24 @@ def plain_beh(rng, kind, shspec=None):
         return ("shsig", shspec[1] if shspec else rng.choice([9, 15]), shspec[2] if shspec else rng.choice(SH_ENTRIES))
     if kind == "shcopy":
         return ("shcopy", shspec[1] if shspec else rng.choice([1, 2]))
+    if kind in ("error", "panic-error") and rng.random() < 0.5:
+        return (kind,) + rng.choice(PLAIN_SHAPES)
     return (kind,)
+
+
+# error VALUE shapes.  The first group has no ExitStatus() of its own (status 1); ("code", n) carries n itself.
+PLAIN_SHAPES = [("wrapplain",), ("unwrapnil",), ("unwrapmulti", 5), ("typednil",)]
+ALL_SHAPES = PLAIN_SHAPES + [("wrapfatal", 7), ("code", 77), ("code", 0), ("code", -3), ("code", 300)]
+
+
+def oracle_decides(behs):
+    """the property sentence does not decide: codes outside 1..255 (its quantifier) and the code of an mg.Fatal that is
+    only reachable through %w (the tree does not look through wrappers; the model is the reference there)"""
+    for b in behs.values():
+        if b[0] in ("error", "panic-error") and len(b) > 1:
+            if b[1] == "wrapfatal" or (b[1] == "code" and not 1 <= b[2] <= 255):
+                return False
+    return True
 
 
 def leaf_failure(rng, c):
@@ -564,6 +661,15 @@ def gen_failure(rng, fid, kind, c, behs, shspec=None):
         behs[fid] = (kind, c)
     elif kind in PLAIN_KINDS:
         behs[fid] = plain_beh(rng, kind, shspec)
+    elif kind == "errshape":
+        # shspec = (error | panic-error, shape tuple, sibling?)
+        behs[fid] = (shspec[0],) + tuple(shspec[1])
+    elif kind == "errshape-dep":
+        ds = rng.sample(LEAF_DEPS, rng.choice([1, 2, 3]) if not shspec[2] else rng.choice([2, 3]))
+        for i, d in enumerate(ds):
+            behs[d] = ((shspec[0],) + tuple(shspec[1])) if i == 0 else (("fatal", 3) if (i == 1 and shspec[2]) else ("ok",))
+        rng.shuffle(ds)
+        behs[fid] = (rng.choice(["deps", "ctxdeps", "sdeps"]), ds)
     elif kind in ("kill", "killonce"):
         behs[fid] = (kind, shspec[1] if shspec else rng.choice(KILL_SIGNALS))
     elif kind == "kill-dep":
@@ -728,6 +834,13 @@ def line_cases(ctx):
             l = gen_line(rng, kind, 1, shspec=sp)
             l["routes"] = "all"
             lines.append(l)
+    # error value shapes: as a target's result, as a dependency's result (alone / next to an mg.Fatal(3)), returned or
+    # as an error-valued panic
+    for shape in ALL_SHAPES:
+        for ek in ("error", "panic-error"):
+            lines.append(gen_line(rng, "errshape", 1, shspec=(ek, shape, False)))
+            lines.append(gen_line(rng, "errshape-dep", 1, shspec=(ek, shape, False)))
+            lines.append(gen_line(rng, "errshape-dep", 1, shspec=(ek, shape, True)))
     # the compiled magefile process itself dies from a signal: in a target / in a dependency, every run / only the first
     # run (marker file), several signals; through the front end (default and hash mode)
     for rep in range(1 if ctx.quick else 4):
@@ -754,6 +867,7 @@ def line_to_cases(ctx, l, idx):
     for m in l["mentions"]:
         ments.append(["run", abs_body(m["id"], behs)] if m["kind"] == "run" else [m["kind"]])
     want = oracle_line(l["mentions"], behs, l.get("msg"))
+    decided = oracle_decides(behs)
     out = []
     killed = want[0] == "nonzero"
     routes = ["compiled", "hash"]
@@ -764,7 +878,7 @@ def line_to_cases(ctx, l, idx):
         routes = ["mage", "hash"]       # a -compile'd binary killed by a signal has no exit status to look at
     for r in routes:
         c = dict(l)
-        c.update(route=r, proj="main", args=list(l["words"]), env=({"VERIF_MSG": l["msg"]} if l.get("msg") else {}), want={"exit": want[0], "ran": want[1], "tokens": want[2]},
+        c.update(route=r, proj="main", args=list(l["words"]), env=({"VERIF_MSG": l["msg"]} if l.get("msg") else {}), want=({"exit": want[0], "ran": want[1], "tokens": want[2]} if decided else None),
                  scen=scen(fa=fargs(nargs=len(l["words"]), hashfast=(r == "hash")), pr=prog(mentions=ments), child=("signaled" if killed else None)), line=idx)
         out.append(c)
     return out
@@ -862,6 +976,21 @@ def table_cases(ctx):
     add("type error", "type", "mage", ["t1"], 1, scen(fa=fargs(nargs=1), bd=build(compile_err=True)), tokens=["error compiling magefiles"])
     add("type error -compile", "type", "mage", ["-compile", "../typeout"], 1, scen(fa=fargs(compile=True), bd=build(compile_err=True)), tokens=["error compiling magefiles"], special="no-out")
     add("duplicate targets", "dup", "mage", ["build"], 1, scen(fa=fargs(nargs=1), bd=build(parse_err=True)), tokens=["Error parsing magefiles"])
+    # --- cannot be compiled as a HISTORY: a first run succeeds (the binary is in the cache), then the code stops compiling -
+    #     in the magefile, in an imported helper package, in a mage:import'ed package, in go.mod - and mage runs again:
+    #     1, nothing runs.  In hash mode without -f a binary whose name (a hash of the magefiles only) is in the cache is
+    #     run without compiling, by design: there the model is the reference, the sentence does not decide.
+    hn = 0
+    for where in ("magefile", "helper", "imp", "gomod"):
+        for route, args in (("mage", ["t1"]), ("mage", ["t1", "t2"]), ("hash", ["-f", "t1"]), ("hash", ["t1"])):
+            hn += 1
+            decided = not (route == "hash" and "-f" not in args and where in ("helper", "imp", "gomod"))
+            add("first run fine, then %s does not compile: mage%s %s" % (where, " (hash mode)" if route == "hash" else "", " ".join(args)),
+                "hist", route, args, 1,
+                scen(fa=fargs(nargs=len([a for a in args if not a.startswith("-")]), force=("-f" in args), hashfast=(route == "hash")),
+                     pr=prog(mentions=[T1] * len([a for a in args if not a.startswith("-")]))),
+                tokens=[], special="history", oracle=decided, slot="h%d" % hn)
+            cs[-1]["hist_break"] = where
     # --- -compile
     add("-compile out", "main", "mage", ["-compile", "../compiled-out"], 0, scen(fa=fargs(compile=True)), special="compile-out")
     add("-compile -goos", "main", "mage", ["-goos", "linux", "-compile", "../compiled-out2"], 0, scen(fa=fargs(compile=True, goosarch=True)), special="compile-out")
@@ -908,7 +1037,8 @@ class Slot:
 
     def __init__(self, m, kind, name):
         self.m, self.kind, self.name = m, kind, name
-        self.dir = m.project(PROJECTS[kind], name=name, probe=False)
+        files = PROJECTS[kind]
+        self.dir = m.project(files(name) if callable(files) else files, name=name, probe=False)
         self.cache_mage = os.path.join(m.ctx.tmp, "cache-m-" + name)
         self.cache_hash = os.path.join(m.ctx.tmp, "cache-h-" + name)
         os.makedirs(self.cache_mage)
@@ -966,6 +1096,15 @@ def exec_case(slot, c):
             cache = os.path.join(m.ctx.tmp, "cache-clean-" + slot.name)
             os.makedirs(cache, exist_ok=True)
             open(os.path.join(cache, "stale"), "w").close()
+        if special == "history":
+            # step 1: a good run that leaves the binary in this slot's cache; step 2: break one place
+            r0 = m.run(slot.dir, ["t1"], env=({"MAGEFILE_HASHFAST": "1"} if route == "hash" else None), cache=cache)
+            if r0["rc"] != 0 or "CALL T1" not in r0["out"]:
+                raise BuildError("history case: the first run of the intact project failed (%d):\n%s" % (r0["rc"], r0["err"][-2000:]))
+            rel, text = HIST_BREAK[c["hist_break"]]
+            with open(os.path.join(slot.dir, rel), "a") as fh:
+                fh.write(text)
+            note["first_run"] = {"rc": r0["rc"], "cache": sorted(os.listdir(cache))}
         if route == "hash":
             env["MAGEFILE_HASHFAST"] = "1"
             if special == "garbage":
@@ -979,6 +1118,10 @@ def exec_case(slot, c):
                     os.replace(p + ".tmp", p)
             # the file system's answer to os.Stat(exePath): the private hash-mode cache holds only this project's binary
             c["scen"]["build"]["exe_exists"] = bool(os.listdir(cache))
+            if special == "history" and c["hist_break"] == "magefile":
+                c["scen"]["build"]["exe_exists"] = False      # the cache name is a hash of the magefiles: a new name
+        elif special == "history":
+            c["scen"]["build"]["exe_exists"] = bool(os.listdir(cache))
         if special == "init-existing":
             open(os.path.join(slot.dir, "magefile.go"), "a").close()
         if special in ("init-fresh", "init-fresh2"):
@@ -988,6 +1131,13 @@ def exec_case(slot, c):
         argv = [m.bin] + list(c["args"])
         e = m.env(env, cache=cache)
     rc, out, err = run_proc(argv, slot.dir, e, devfull=(special == "devfull"))
+    if special == "history":
+        # what the go tool answered, as mage reports it (every one of them means "cannot be built")
+        cls = projlib.stderr_class(err)
+        flag = {"list-error": "list_err", "parse-error": "parse_err", "compile-error": "compile_err"}.get(cls)
+        if flag:
+            c["scen"]["build"][flag] = True
+        note["stderr_class"] = cls
     if special == "garbage":
         for f in os.listdir(slot.cache_hash):
             os.remove(os.path.join(slot.cache_hash, f))
